@@ -623,6 +623,9 @@ pub fn supervise(cli: &Cli, n: u64, forward: &[(&str, String)], per_run_timeout_
     use std::process::{Command, Stdio};
     let chunk = (n / (cli.workers as u64 * 8)).clamp(8, 2000);
     let next = AtomicU64::new(0);
+    // a batch that keeps killing its workers has made its point: stop early
+    let bad_events = AtomicU64::new(0);
+    const MAX_BAD_EVENTS: u64 = 12;
     let result = Mutex::new(Supervised::default());
     std::thread::scope(|s| {
         for _ in 0..cli.workers {
@@ -630,12 +633,12 @@ pub fn supervise(cli: &Cli, n: u64, forward: &[(&str, String)], per_run_timeout_
                 let mut local = Supervised::default();
                 loop {
                     let a = next.fetch_add(chunk, Ordering::Relaxed);
-                    if a >= n {
+                    if a >= n || bad_events.load(Ordering::Relaxed) >= MAX_BAD_EVENTS {
                         break;
                     }
                     let b = (a + chunk).min(n);
                     let mut from = a;
-                    while from < b {
+                    while from < b && bad_events.load(Ordering::Relaxed) < MAX_BAD_EVENTS {
                         let mut cmd = Command::new(&cli.exe);
                         cmd.arg(&cli.target)
                             .arg("--mode")
@@ -730,6 +733,7 @@ pub fn supervise(cli: &Cli, n: u64, forward: &[(&str, String)], per_run_timeout_
                         if done {
                             from = b;
                         } else if timed_out {
+                            bad_events.fetch_add(1, Ordering::Relaxed);
                             local.harness_errors.push(format!(
                                 "worker watchdog: run {} produced no result within {} s (wall clock is never a verdict)",
                                 next_k, per_run_timeout_s
@@ -737,6 +741,7 @@ pub fn supervise(cli: &Cli, n: u64, forward: &[(&str, String)], per_run_timeout_
                             from = next_k + 1;
                         } else {
                             let how = status.map(|s| describe_exit(&s)).unwrap_or_else(|e| e.to_string());
+                            bad_events.fetch_add(1, Ordering::Relaxed);
                             local.deaths.push((next_k, how));
                             from = next_k + 1;
                         }
